@@ -479,6 +479,9 @@ func runReload(rs ReloadScript) (nontrivial bool, key string, f *vt.Finding) {
 		// reference 2: the provider-level expectation used by the other checks
 		facs, _ := reloadFactories(newRecorder())
 		l := loadDocWith(facs, doc, true)
+		if l.panicV != nil {
+			return true, key, vt.Failf("panic/load/composition", "loading a valid configuration panicked: %v\n%s", l.panicV, l.stack)
+		}
 		if l.err() != nil || l.eff == nil {
 			c.Exclude("generated document rejected at provider level (generator model)")
 			return false, key, nil
